@@ -18,10 +18,11 @@ Property predicates on the implementation's own transcript (kind 'pred'):
   stream     (C06) every read delivers the slice of the sequential reference read at its position
   seek       (C06) SEEK_CUR 0 reports the position, a seek to frame 0 rewinds, any other target fails with -1
 
-Known findings: KF-DWVW-TAIL-CALL (a decode call that starts after the decoder's look-ahead passed the end of the data
-returns 0) and KF-RAW-DWVW-FRAMES (RAW: the frame count at re-open is an estimate).  The model reproduces both bug for
-bug, so a failing predicate is waived only when the model shows the very same transcript on that job (no 'corr' problem)
-and the failure is a count shortfall / estimate - never when a delivered sample has the wrong value.
+Known finding: KF-RAW-DWVW-FRAMES (RAW has no header: the frame count at re-open is an estimate F >= N, theorem
+dwvw_raw_frames_partial).  Its class is exactly "RAW, the file re-opens with MORE frames than were written"; it is waived
+only when the model shows the very same transcript on that job (no 'corr' problem).  KF-DWVW-TAIL-CALL (a decode call that
+started after the look-ahead had passed the end of the data returned 0) is repaired: a count shortfall - fewer frames at
+re-open, a read that returns less than min (asked, frames - position) - is a violation on AIFF and RAW alike.
 """
 import collections, concurrent.futures
 
@@ -424,7 +425,7 @@ def analyse(job, impl, model):
         return [Problem(job, "pred", "crash", "implementation died: " + died, max(0, min(len(impl), len(sl)) - 1))], info
     if len(impl) < len(sl):
         return [Problem(job, "pred", "crash", "transcript ends early (%d of %d lines)" % (len(impl), len(sl)), len(impl))], info
-    short = {KF_TAIL, KF_RAWF} if job.raw else {KF_TAIL}
+    short = ()           # since the repair of KF-DWVW-TAIL-CALL no count shortfall is a known finding
     mi = 0
     F, pos, ref, posbroken = 0, 0, None, False
     written = None
@@ -446,7 +447,7 @@ def analyse(job, impl, model):
                 if m.strip() != "frames=%d" % F:
                     probs.append(Problem(job, "corr", "frames", "frames after re-open", k, out, m))
                 if not job.stored() and F != job.n:
-                    kf = ({KF_RAWF} if job.raw else set()) | ({KF_TAIL} if F < job.n else set())
+                    kf = {KF_RAWF} if job.raw and F > job.n else set()          # the estimate of a headerless file: never below N
                     probs.append(Problem(job, "pred", "frames", "%d frames written, the file re-opens with %d frames" % (job.n, F), k, kf=kf, expect="frames=%d " % job.n))
         elif t[0] == "w":
             if S.normalise(out) != S.normalise(m):
@@ -578,7 +579,7 @@ def waiver(ctx, prop, p, corr_jobs):
     """the known-finding entry that covers this failing predicate, or None"""
     if p.cat not in WAIVABLE or not p.kf or p.job.name in corr_jobs:
         return None
-    for kid in (KF_TAIL, KF_RAWF):
+    for kid in (KF_RAWF,):
         if kid in p.kf:
             ent = next((e for e in ctx.known if e.get("id") == kid and e.get("status") == "known" and prop in e.get("properties", [])), None)
             if ent is not None:
